@@ -3,6 +3,7 @@ package mc
 import (
 	"bytes"
 	"fmt"
+	"io"
 	"os"
 	"os/exec"
 	"path/filepath"
@@ -84,5 +85,63 @@ func (m *Master) RacePass(what string) {
 		seen[sig] = true
 		payload := []byte(fmt.Sprintf(`{"kind":"racepass","what":%q}`, what))
 		m.AddViolation(Violation{Sig: sig, Desc: "go race detector, free-running pass: " + oneLine(strings.TrimSpace(r), 700), Replay: payload, Precise: true})
+	}
+}
+
+// RacePassCLI is the free-running pass for the command line: goalign itself is built with the race detector from
+// the repository's current tree and each argument list is run in dir; every report of the detector is a
+// violation <prop>/race-detector-cli/<site>.  (The controlled exploration of the instrumented binary orders
+// goroutines at their synchronisation operations only; memory shared without any is what this pass is for.)
+func (m *Master) RacePassCLI(dir string, runs [][]string) {
+	bin := filepath.Join(m.Scratch, "goalign-race")
+	build := exec.Command("go", "build", "-race", "-o", bin, ".")
+	build.Dir = m.Repo
+	build.Env = append(os.Environ(), "CGO_ENABLED=1")
+	if out, err := build.CombinedOutput(); err != nil {
+		m.Tot.Notes = append(m.Tot.Notes, "goalign could not be built with -race (evidence only from the controlled exploration): "+oneLine(string(out), 300))
+		m.Tot.Extra["racepass_cli_built"] = 0
+		return
+	}
+	m.Tot.Extra["racepass_cli_built"] = 1
+	seen := map[string]bool{}
+	for _, args := range runs {
+		cmd := exec.Command(bin, args...)
+		cmd.Dir = dir
+		cmd.Env = append(os.Environ(), "GORACE=halt_on_error=0 exitcode=0")
+		var out bytes.Buffer
+		cmd.Stdout = io.Discard
+		cmd.Stderr = &out
+		done := make(chan error, 1)
+		if cmd.Start() != nil {
+			continue
+		}
+		go func() { done <- cmd.Wait() }()
+		select {
+		case <-done:
+		case <-time.After(60 * time.Second):
+			cmd.Process.Kill()
+			<-done
+			m.Tot.Extra["racepass_cli_timeout"]++
+		}
+		m.Tot.Extra["racepass_cli_runs"]++
+		reports := strings.Split(out.String(), "WARNING: DATA RACE")
+		m.Tot.Extra["racepass_cli_reports"] += int64(len(reports) - 1)
+		for _, r := range reports[1:] {
+			fr := raceFrame.FindAllStringSubmatch(r, -1)
+			site := "?"
+			if len(fr) > 0 {
+				site = fr[0][1]
+				if i := strings.LastIndex(site, "/"); i >= 0 {
+					site = site[i+1:]
+				}
+			}
+			sig := fmt.Sprintf("%s/race-detector-cli/%s", m.Prop.ID, site)
+			if seen[sig] {
+				continue
+			}
+			seen[sig] = true
+			payload := []byte(fmt.Sprintf(`{"kind":"racepass","what":%q}`, "goalign "+strings.Join(args, " ")))
+			m.AddViolation(Violation{Sig: sig, Desc: "go race detector, goalign " + strings.Join(args, " ") + ": " + oneLine(strings.TrimSpace(r), 700), Replay: payload, Precise: true})
+		}
 	}
 }
